@@ -161,6 +161,7 @@ def check_mac(prop, tier, seed):
     lean = lean_obligations(prop)
     if tier == "thorough":
         lc = engine.leancheck_all()
+        lean["leanchecker"] = {"modules_rechecked": lc["modules"], "failed": lc["failed"], "wall_s": lc["wall_s"]}
         for f in lc["failed"]:
             lean["broken"].append(f"leanchecker rejects {f['module']}")
         streams = [run_mac_stream(seed + i, 1500, 6) for i in range(4)]
@@ -266,6 +267,7 @@ def check_mac(prop, tier, seed):
         "model_vs_impl_disagreements": sum(len(s["diffs"]) for s in streams),
         "impl_vs_oracle_failures": sum(1 for s in streams for h in s["oracle_hits"] if h["property"] == prop and not is_known(h, "mac")),
         "known_findings_reported": known_lines,
+        "leanchecker": lean.get("leanchecker"),
         "end_to_end_programs": {"compiled_and_run": sum(1 for x in e2["results"] if x["expect"] in ("run", "twin") and x.get("compiled")),
                                 "must_not_compile": sum(1 for x in e2["results"] if x["expect"] == "fail"),
                                 "oracle_failures": len(e2["hits"]), "unexpected_verdicts": len(e2.get("unexpected", [])), "wall_s": e2.get("wall_s"),
@@ -319,7 +321,7 @@ def check_c18(prop, tier, seed):
         for f in lc["failed"]:
             lean["broken"].append(f"leanchecker rejects {f['module']}")
     pr = run_probes()
-    # (a) end-to-end: the harness that declares worlds and ~50 query invocations is compiled under
+    # (a) end-to-end: the harness that declares worlds and 120 query call sites is compiled under
     # #![forbid(unsafe_code)] in both quick configurations
     rt_builds = {c: engine.build_rt(c) for c in engine.QUICK_CONFIGS}
     mac = run_mac_stream(seed, 250, 4)
